@@ -183,6 +183,45 @@ FIXED_WZ = [
     '函数 主控:\n\tx := 1;;\n\t;\n\t如果 (x > 0):\n\t\t输出(x)\n\t完毕\n\t循环 (x < 3):\n\t\tx++\n\t完毕\n完毕\n',
 ]
 
+def _nested(lang, comment_at_depth2, comment_at_depth1):
+    """a program with statements at nesting depth 1 and 2; the given texts are put before a statement"""
+    if lang == "wa":
+        return ("func main {\n\tx := 1\n" + comment_at_depth1 + "\n\tif x > 0 {\n\t\tfor i := 0; i < 2; i++ {\n" + comment_at_depth2 +
+                "\n\t\t\tprintln(i)\n\t\t}\n\t}\n\tprintln(x)\n}\n")
+    return ("函数·主控:\n\tx := 1\n" + comment_at_depth1 + "\n\t如果 x > 0:\n\t\t循环 i := 0; i < 2; i++:\n" + comment_at_depth2 +
+            "\n\t\t\t输出(i)\n\t\t完毕\n\t完毕\n\t输出(x)\n完毕\n")
+
+
+def multiline_comment_inputs():
+    """every shape of a multi-line general comment (gen/c07_variants.block_comment) before a statement at
+    nesting depth 1 and 3, starting in column 1 or at the code's indentation, with LF and CRLF"""
+    out = []
+    for lang in ("wa", "wz"):
+        for shape in range(V.BLOCK_SHAPES):
+            for col1 in (True, False):
+                c2 = V.block_comment(None, "c2", "\t\t\t", shape, col1)
+                c1 = V.block_comment(None, "c1", "\t", shape, col1)
+                src = _nested(lang, c2, c1)
+                out.append((lang, src, "shape%d-%s" % (shape, "col1" if col1 else "ind")))
+                if shape in (0, 2, 4):
+                    out.append((lang, src.replace("\n", "\r\n"), "shape%d-%s" % (shape, "col1" if col1 else "ind")))
+    return out
+
+
+# every pair of adjacent operator tokens that would fuse into another token if the printer dropped the blank
+ADJ_WA = ("func main {\n\tx := 3\n\ty := 4\n\tb := true\n\tp := &x\n\tpp := &p\n"
+          "\tprintln(- -x, + +x, ^ ^x, - - -x, -(-x), +(-x), - +x, + -x)\n"
+          "\tprintln(10 - -x, 10 + +x, 10 - - -x, 10 + + +x, y & ^x, y &^ x, y & (^x), y | ^x, y ^ ^x, y * -x, y / -x)\n"
+          "\tprintln(**pp, *&x, &*p == p, x < -y, x > -y, x << 1, x >> 1, y - -1, y + +1)\n"
+          "\tif ! !b && !(!b) && x < -y == false {\n\t\tprintln(1.0 / 2.0, y / *p, x - -x - -x)\n\t}\n"
+          "\tx = x - -1\n\tx -= -1\n\tx += +1\n\ty = -x - -y\n\tprintln(x, y)\n}\n")
+ADJ_WZ = ("函数·主控:\n\tx := 3\n\ty := 4\n\tb := 真\n\tp := &x\n\tpp := &p\n"
+          "\t输出(- -x, + +x, ^ ^x, - - -x, -(-x), +(-x), - +x, + -x)\n"
+          "\t输出(10 - -x, 10 + +x, 10 - - -x, 10 + + +x, y & ^x, y &^ x, y & (^x), y | ^x, y ^ ^x, y * -x, y / -x)\n"
+          "\t输出(**pp, *&x, x << 1, x >> 1, y - -1, y + +1)\n"
+          "\t如果 ! !b && !(!b) && x < -y == 假:\n\t\t输出(1.0 / 2.0, y / *p, x - -x - -x)\n\t完毕\n"
+          "\tx = x - -1\n\tx -= -1\n\tx += +1\n\ty = -x - -y\n\t输出(x, y)\n完毕\n")
+
 # the comment site a fixed input is about (root-cause class of a failure on it)
 FIXED_SITE = {("wz", 1): "around-else"}      # a comment as the only content of the branch before 否则
 
@@ -379,6 +418,10 @@ def run(ctx):
         'import "b"\nimport "a"\n\nfunc main {\n}\n',
     ]):
         cases.append(Case("wa", s, "imports", "imports%d" % k))
+    for lang, src, name in multiline_comment_inputs():
+        cases.append(Case(lang, src, "fixed", "multiline-block-" + name, {"site": "multiline-block:" + name}))
+    cases.append(Case("wa", ADJ_WA, "fixed", "operator-adjacency-wa"))
+    cases.append(Case("wz", ADJ_WZ, "fixed", "operator-adjacency-wz"))
     for lang, lst in (("wa", FIXED_WA), ("wz", FIXED_WZ)):
         for k, s in enumerate(lst):
             cases.append(Case(lang, s, "fixed", "fixed-%s-%d" % (lang, k), {"site": FIXED_SITE.get((lang, k))}))
@@ -543,6 +586,8 @@ def run(ctx):
             body = [s for s in ss if s.meta["what"] == "body"][0]
             if clean.fail and not body.fail:
                 c.fail = clean.fail
+                if getattr(clean, "a", None):
+                    c.a = clean.a          # the runs of the clean text (layout edits may split them)
                 report(c, "%s:imports:%s" % (c.lang, import_cause(c)), " (the import block alone, without the inserted comments)")
                 continue
             if clean.fail:
@@ -554,6 +599,8 @@ def run(ctx):
             one = [s for s in ss if s.meta["what"] == "comment" and s.fail]
             if one:
                 for s in one[:3]:
+                    if s.meta["edit"].get("mlc") and str(s.meta.get("site", "other:")).startswith("other:"):
+                        s.meta["site"] = "multiline-block:" + s.meta["edit"]["mlc"]
                     report(c, "%s:comment:%s" % (c.lang, s.meta.get("site", "?")),
                            " (isolated: the single %s comment %r between `%s` and `%s` gives %s)" % (
                                s.meta["edit"]["kind"], s.meta["edit"]["text"].strip(), s.meta.get("prev"), s.meta.get("next"), s.fail[0][0]))
